@@ -23,13 +23,19 @@ theorem cells_equal_objects (c : Cfg) (ops : List Op) :
     let s := after c ops
     s.cells.s1 = (liveSessions s .h1 : Int) ∧ s.cells.s2 = (liveSessions s .h2 : Int) ∧
     s.cells.tcp = (liveTcp s : Int) ∧ s.cells.udp = (liveUdp s : Int) := by
-  sorry
+  exact (run_eq4 c ops).live
 
 /-- no gauge is ever negative -/
 theorem gauges_nonneg (c : Cfg) (ops : List Op) :
     let s := after c ops
     0 ≤ s.cells.s1 ∧ 0 ≤ s.cells.s2 ∧ 0 ≤ s.cells.tcp ∧ 0 ≤ s.cells.udp := by
-  sorry
+  intro s
+  obtain ⟨h1, h2, h3, h4⟩ := (run_eq4 c ops).live
+  refine ⟨?_, ?_, ?_, ?_⟩
+  · show 0 ≤ (after c ops).cells.s1; rw [show (after c ops).cells.s1 = _ from h1]; exact Int.natCast_nonneg _
+  · show 0 ≤ (after c ops).cells.s2; rw [show (after c ops).cells.s2 = _ from h2]; exact Int.natCast_nonneg _
+  · show 0 ≤ (after c ops).cells.tcp; rw [show (after c ops).cells.tcp = _ from h3]; exact Int.natCast_nonneg _
+  · show 0 ≤ (after c ops).cells.udp; rw [show (after c ops).cells.udp = _ from h4]; exact Int.natCast_nonneg _
 
 /-- **when all clients are gone** the session gauges and the UDP socket gauge are zero at once
 (a multiplexer ends with its client) ... -/
@@ -37,7 +43,7 @@ theorem all_clients_gone_sessions_udp_zero (c : Cfg) (ops : List Op)
     (h : ∀ x ∈ (after c ops).sess, x.alive = false) :
     let s := after c ops
     s.cells.s1 = 0 ∧ s.cells.s2 = 0 ∧ s.cells.udp = 0 := by
-  sorry
+  exact gone_sessions_udp_zero (run_eq4 c ops) (run_inv2 c ops) h
 
 /-- ... and the TCP socket gauge is zero once the connect timeout and the idle timeout have run
 out (an origin connection whose client vanished lingers until the endpoint writes to the client
@@ -47,12 +53,18 @@ theorem all_clients_gone_everything_zero (c : Cfg) (ops : List Op) (ms : Nat)
     (hi : 2 * c.tcpIdle ≤ ms) (he : c.establish ≤ ms) :
     let s := after c (ops ++ [.adv ms])
     s.cells.s1 = 0 ∧ s.cells.s2 = 0 ∧ s.cells.tcp = 0 ∧ s.cells.udp = 0 := by
-  sorry
+  show (after c (ops ++ [.adv ms])).cells.s1 = 0 ∧ (after c (ops ++ [.adv ms])).cells.s2 = 0 ∧
+    (after c (ops ++ [.adv ms])).cells.tcp = 0 ∧ (after c (ops ++ [.adv ms])).cells.udp = 0
+  unfold after at h ⊢
+  rw [run_snoc]
+  exact gone_everything_zero c ms _ (run_eq4 c ops) (run_inv2 c ops) h hi he
 
 /-- a refused connect leaves the TCP gauge where it was (guard created and dropped) -/
 theorem refused_connect_balanced (c : Cfg) (ops : List Op) (i : Nat) :
     (after c (ops ++ [.tunOpen i .dead])).cells.tcp = (after c ops).cells.tcp := by
-  sorry
+  unfold after
+  rw [run_snoc]
+  exact step_dead_tcp c _ i
 
 /-- a connect that never completes holds its guard exactly until the establishment timeout
 (`hn`: the session can still take a tunnel - an HTTP/1.1 connection carries only one) -/
@@ -62,7 +74,11 @@ theorem hanging_connect_released_by_timeout (c : Cfg) (ops : List Op) (i ms : Na
     (he : c.establish ≤ ms) :
     (after c (ops ++ [.tunOpen i .hang])).cells.tcp = (after c ops).cells.tcp + 1 ∧
     (after c (ops ++ [.tunOpen i .hang, .adv ms])).cells.tcp ≤ (after c ops).cells.tcp := by
-  sorry
+  unfold after at ha hn ⊢
+  have := hang_released c (run c {} ops) i ms ha hn he
+  rw [run_snoc, show ops ++ [Op.tunOpen i .hang, .adv ms] = (ops ++ [.tunOpen i .hang]) ++ [.adv ms] by simp,
+    run_snoc, run_snoc]
+  exact this
 
 /-! ## Relayed bytes -/
 
@@ -71,7 +87,14 @@ theorem counters_monotone (c : Cfg) (ops : List Op) (op : Op) :
     let a := (after c ops).cells
     let b := (after c (ops ++ [op])).cells
     a.up1 ≤ b.up1 ∧ a.up2 ≤ b.up2 ∧ a.dn1 ≤ b.dn1 ∧ a.dn2 ≤ b.dn2 := by
-  sorry
+  show (after c ops).cells.up1 ≤ (after c (ops ++ [op])).cells.up1 ∧
+    (after c ops).cells.up2 ≤ (after c (ops ++ [op])).cells.up2 ∧
+    (after c ops).cells.dn1 ≤ (after c (ops ++ [op])).cells.dn1 ∧
+    (after c ops).cells.dn2 ≤ (after c (ops ++ [op])).cells.dn2
+  unfold after
+  rw [run_snoc]
+  have ok := step_ok c (run c {} ops) op
+  exact ⟨ok.up1, ok.up2, ok.dn1, ok.dn2⟩
 
 /-- **bytes relayed client -> origin on a relaying tunnel are added, exactly, to the counter of
 that session's protocol** and to nothing else -/
@@ -79,14 +102,22 @@ theorem up_adds_exactly (c : Cfg) (ops : List Op) (t n : Nat)
     (h : ((after c ops).tuns.getD t default).st = .open false false) :
     let s := after c ops
     (after c (ops ++ [.up t n])).cells = s.cells.addUp (protoOf s (s.tuns.getD t default).sess) n := by
-  sorry
+  show (after c (ops ++ [.up t n])).cells = _
+  unfold after at h ⊢
+  rw [run_snoc]
+  simp only [step]
+  rw [h]
 
 /-- the same for origin -> client, as long as the client is there (also after it half-closed) -/
 theorem down_adds_exactly (c : Cfg) (ops : List Op) (t n : Nat) (ce : Bool)
     (h : ((after c ops).tuns.getD t default).st = .open ce false) :
     let s := after c ops
     (after c (ops ++ [.down t n])).cells = s.cells.addDn (protoOf s (s.tuns.getD t default).sess) n := by
-  sorry
+  show (after c (ops ++ [.down t n])).cells = _
+  unfold after at h ⊢
+  rw [run_snoc]
+  simp only [step]
+  rw [h]
 
 /-- data offered on a tunnel that is not relaying in that direction (closed, still connecting,
 client already ended, client vanished) counts nothing -/
@@ -95,7 +126,14 @@ theorem no_relay_no_bytes (c : Cfg) (ops : List Op) (t n : Nat)
     let a := (after c ops).cells
     let b := (after c (ops ++ [.up t n])).cells
     b.up1 = a.up1 ∧ b.up2 = a.up2 ∧ b.dn1 = a.dn1 ∧ b.dn2 = a.dn2 := by
-  sorry
+  show (after c (ops ++ [.up t n])).cells.up1 = (after c ops).cells.up1 ∧
+    (after c (ops ++ [.up t n])).cells.up2 = (after c ops).cells.up2 ∧
+    (after c (ops ++ [.up t n])).cells.dn1 = (after c ops).cells.dn1 ∧
+    (after c (ops ++ [.up t n])).cells.dn2 = (after c ops).cells.dn2
+  unfold after at h ⊢
+  rw [run_snoc]
+  simp only [step]
+  exact ⟨trivial, trivial, trivial, trivial⟩
 
 /-- UDP: a multiplexer step adds to the session's protocol exactly the payload bytes the
 multiplexer model (`TT.UdpFlows`, C07) reports as sent / delivered -/
@@ -106,7 +144,12 @@ theorem udp_bytes_follow_multiplexer (c : Cfg) (ops : List Op) (t : Nat) (u : Ud
     let u' := (UdpFlows.step c.udp u (.dg m n)).1
     (after c (ops ++ [.udpUp t m n])).cells =
       ((s.cells.udpDelta u u').addUp p (u'.up - u.up)).addDn p (u'.down - u.down) := by
-  sorry
+  show (after c (ops ++ [.udpUp t m n])).cells = _
+  unfold after at h ⊢
+  rw [run_snoc]
+  simp only [step]
+  rw [h]
+  rfl
 
 /-! ## Export: the documented series -/
 
@@ -119,10 +162,10 @@ theorem documented_series :
        ("outbound_traffic_bytes", "counter", ["protocol_type"]),
        ("outbound_tcp_sockets", "gauge", []),
        ("outbound_udp_sockets", "gauge", [])] := by
-  sorry
+  decide
 
 theorem documented_paths : TT.Gen.docPaths = ["/metrics", "/health-check"] := by
-  sorry
+  decide
 
 /-! ## Non-vacuity -/
 
